@@ -34,7 +34,7 @@ import sys
 import time
 
 sys.path.insert(0, os.path.dirname(os.path.abspath(__file__)))
-from extract import ExtractError, extract_fn, extract_item  # noqa: E402
+from extract import ExtractError, extract_fn, extract_item, extract_closure_fn  # noqa: E402
 
 VERIF = os.path.dirname(os.path.dirname(os.path.abspath(__file__)))
 REPO = os.environ.get('VERIF_REPO', '/repo')
@@ -78,9 +78,10 @@ def assemble(tpl_path, repo=REPO, drop_lines=()):
             out.append('// extracted: %s %s  (%s:%d)' % (kv['kind'], kv['name'], kv['file'], info['lines'][0]))
             out.append(txt.rstrip())
             i += 1
-        elif st.startswith('//@@ fn '):
-            kv = parse_kv(st[len('//@@ fn '):])
-            spec = dict(file=kv['file'], impl=kv.get('impl', ''), fn=kv['name'], nth=kv.get('nth', 0),
+        elif st.startswith('//@@ fn ') or st.startswith('//@@ closurefn '):
+            is_closure = st.startswith('//@@ closurefn ')
+            kv = parse_kv(st.split(' ', 2)[2])
+            spec = dict(file=kv['file'], impl=kv.get('impl', ''), fn=kv['name'], nth=kv.get('nth', 0), let=kv.get('let', ''), params=kv.get('params', ''),
                         rules=[r for r in kv.get('rules', '').split(',') if r], ret=kv.get('ret', 'r'),
                         loops={}, loop_tails={}, sig_sub=[], ghost_args=[], ghost_params=[], closures={}, derefs=[])
             section, buf = None, []
@@ -90,7 +91,7 @@ def assemble(tpl_path, repo=REPO, drop_lines=()):
                 if section is None:
                     return
                 txt = '\n'.join(buf)
-                if section in ('contract', 'proof', 'attrs', 'entry'):
+                if section in ('contract', 'proof', 'attrs', 'entry', 'signature'):
                     spec[section] = txt
                 elif isinstance(section, tuple) and section[0] == 'closure':
                     spec['closures'][section[1]] = txt
@@ -103,7 +104,7 @@ def assemble(tpl_path, repo=REPO, drop_lines=()):
                 if st2.startswith('//@@ end'):
                     flush()
                     break
-                m = re.match(r'//@@ (contract|proof|attrs|entry)\s*$', st2)
+                m = re.match(r'//@@ (contract|proof|attrs|entry|signature)\s*$', st2)
                 m2 = re.match(r'//@@ loop (\d+)\s*$', st2)
                 m3 = re.match(r'//@@ sigsub /(.*)/ =>\s?(.*)$', st2)
                 m4 = re.match(r'//@@ looptail (\d+)\s*$', st2)
@@ -136,7 +137,7 @@ def assemble(tpl_path, repo=REPO, drop_lines=()):
                 i += 1
             else:
                 raise ExtractError('%s: fn block without //@@ end' % tpl_path)
-            txt, info = extract_fn(repo, spec)
+            txt, info = (extract_closure_fn(repo, spec) if is_closure else extract_fn(repo, spec))
             info['has_contract'] = bool(spec.get('contract'))
             fns.append(info)
             out.append('    // extracted: %s :: %s :: %s  (lines %d-%d, sha256 %s, rules %s)' % (
